@@ -119,6 +119,29 @@ fn model_cmd(op: &WOp, seq: u64, ids: &[u64]) -> String {
     }
 }
 
+/// C13, background clause: the journal sync that fails is the one of the worker's journal rotation (Flush tick,
+/// journal past 64 MB).  Afterwards insert / remove / batch / persist must all be refused.
+fn rotation_fault_probe() -> Option<Failure> {
+    let scratch = Scratch::new("rotfault");
+    let dir = scratch.join("db");
+    let arm = dir.with_extension("arm");
+    let log = dir.with_extension("log");
+    let exe = std::env::current_exe().ok()?.parent()?.join("crash_child");
+    let out = Command::new(exe).arg(&dir).arg("0").arg("bigrot")
+        .env("LD_PRELOAD", std::env::var("VERIF_SHIM").unwrap_or_else(|_| "/verif/shim/crashshim.so".to_string()))
+        .env("VERIF_SHIM_LOG", &log).env("VERIF_SHIM_ARM_FILE", &arm).env("VERIF_SHIM_FAIL", "1:5:once").env("RUST_BACKTRACE", "0")
+        .output().ok()?;
+    let text = String::from_utf8_lossy(&out.stdout).to_string();
+    let shim = std::fs::read_to_string(&log).unwrap_or_default();
+    let _ = std::fs::remove_file(&arm); let _ = std::fs::remove_file(&log);
+    let failed_sync = shim.lines().any(|l| l.contains("fsync-fail") || l.contains("fdatasync-fail"));
+    let res: Vec<(String, String)> = text.lines().filter_map(|l| { let p: Vec<&str> = l.split(' ').collect(); if p[0] == "P" && p.len() >= 3 { Some((p[1].to_string(), p[2].to_string())) } else { None } }).collect();
+    if !failed_sync || res.len() != 4 { return None; } // the fault did not hit the rotation's sync (or the child did not finish): nothing probed
+    let acked: Vec<&str> = res.iter().filter(|(_, r)| r == "ok").map(|(o, _)| o.as_str()).collect();
+    if acked.is_empty() { return None; }
+    Some(Failure { kind: "impl-vs-oracle", detail: format!("the fsync of the worker's journal rotation (journal past 64 MB) failed with EIO, yet afterwards these writes were acknowledged: {acked:?} (results {res:?}) - the database was not poisoned") })
+}
+
 fn log_str(l: &[(String, u64, i64)]) -> String {
     l.iter().map(|(w, a, r)| match w.as_str() {
         "write" | "write-short" => format!("write:{a}:{r}"),
@@ -428,6 +451,10 @@ fn main() {
     let mut samples = vec![];
     let mut hist = BTreeMap::new();
     let mut cases = 0;
+    if mode == "c13" && replay.is_none() {
+        if let Some(f) = rotation_fault_probe() { all.push((0, f)); }
+        *hist.entry("journal-rotation-sync-failure-probe".to_string()).or_insert(0) += 1;
+    }
     for cs in seeds {
         let res = std::panic::catch_unwind(std::panic::AssertUnwindSafe(|| run_case(cs, &mode, thorough, &mut lean, &mut hist, &mut samples)));
         cases += 1;
